@@ -109,15 +109,21 @@ class KGFnWrapper:
                 current = None
             if isinstance(current, KGFn) and (not isinstance(current, KGCall) or isinstance(current.a, KGLambda)):
                 # Use the current definition
-                if len(args) != current.arity:
-                    raise RuntimeError(f"Klong function called with {len(args)} but expected {current.arity}")
-                fn_args = [self.klong._backend.kg_asarray(x) if isinstance(x, list) else x for x in args]
-                return self.klong.call(KGCall(current.a, [*fn_args], current.arity))
+                return self._apply(current, args)
 
-        if len(args) != self.fn.arity:
-            raise RuntimeError(f"Klong function called with {len(args)} but expected {self.fn.arity}")
+        return self._apply(self.fn, args)
+
+    def _apply(self, fn, args):
+        # a projection takes as many arguments as it has holes; its fixed arguments are merged by the interpreter
+        fixed = fn.args if isinstance(fn.args, list) else ([] if fn.args is None else [fn.args])
+        holes = sum(1 for x in fixed if x is None)
+        expected = holes if holes else fn.arity
+        if len(args) != expected:
+            raise RuntimeError(f"Klong function called with {len(args)} but expected {expected}")
         fn_args = [self.klong._backend.kg_asarray(x) if isinstance(x, list) else x for x in args]
-        return self.klong.call(KGCall(self.fn.a, [*fn_args], self.fn.arity))
+        if holes:
+            return self.klong.call(KGCall(fn, [*fn_args], expected))
+        return self.klong.call(KGCall(fn.a, [*fn_args], fn.arity))
 
 
 class KGCall(KGFn):
